@@ -15,6 +15,12 @@ for d in sorted(glob.glob(f"/verif/seeded/{pid}-m*") + glob.glob("/verif/seeded/
         if sm and sm not in avoid:
             avoid.append(sm)
 ROUND = os.environ.get("MUT_ROUND", "1")
+COUNT = int(os.environ.get("MUT_COUNT", "2"))
+NTXT = ('TWO independent source changes ("m1" and "m2", as different from each other in mechanism and location as you can)' if COUNT == 2 else
+        'ONE source change ("m1"; think of several candidates first and pick the one that is hardest to notice in review and by any tool that only looks at the obvious place -- '
+        'consider the less obvious layers too: py/formak/templates/*, cpp/include/formak/*.h, cpp/runtime/include/formak/runtime/*.h, py/formak/ast_tools.py, '
+        'py/formak/ast_fragments.py, py/formak/common.py, py/formak/ui_model.py, construction code vs evaluation code, two cooperating edits)')
+KS = "1,2" if COUNT == 2 else "1"
 AVOID = ""
 if ROUND != "1" and avoid:
     AVOID = "\nEarlier volunteers already produced the following changes for this property; yours must be DIFFERENT in mechanism and preferably in location (another function, file or layer -- e.g. the other back-end, the templates, the runtime header, a helper, the generator, the construction code rather than the evaluation code):\n" + "\n".join("  - " + a for a in avoid) + "\n"
@@ -31,7 +37,7 @@ The property under study:
   Quantified over: {p['quantifier']['text']}
 
 {AVOID}
-Your task: produce TWO independent source changes ("m1" and "m2", as different from each other in mechanism and location as you can) to the library code (under py/formak/, cpp/ or py/formak/templates/ -- not the tests) such that EACH change, applied alone to the unchanged worktree:
+Your task: produce {NTXT} to the library code (under py/formak/, cpp/ or py/formak/templates/ -- not the tests) such that EACH change, applied alone to the unchanged worktree:
   1. breaks the property above (the library then really misbehaves for some input / configuration / history the property quantifies over);
   2. still "compiles" (Python imports fine; C++ headers/templates remain syntactically and type-wise plausible) and the existing runnable test suite still passes exactly as before: run from the worktree root
        /venv/bin/python -m pytest -q -p no:cacheprovider --timeout=900 --continue-on-collection-errors
@@ -39,7 +45,7 @@ Your task: produce TWO independent source changes ("m1" and "m2", as different f
   3. is realistic -- the kind of slip or well-meant refactor a maintainer could make and a reviewer could miss -- and is SUBTLE: it must need something specific to manifest (an unusual input or model shape, a particular configuration combination, a multi-step sequence of operations, a particular ordering of names, or two cooperating edits that each look fine alone), NOT something that any ordinary use would expose at once. Do not add dead code, environment-variable switches, random behaviour or special-casing of magic values; do not merely delete a whole feature.
 For each change also write a demonstration: a small self-contained Python script (or, for C++-only changes, a small C++ program plus the g++/clang++ command line; there is no Eigen and no Bazel here, so C++ demos must use hand-written stand-in types, as the runtime headers are templates) that exits 0 on the unchanged worktree and exits non-zero (assertion failure) with the change applied. The demo takes the repository root as its first command-line argument and must put <root>/py on sys.path itself.
 
-Deliver, for k in 1,2:
+Deliver, for k in {KS}:
   {OUT}/{pid}/m<k>/patch.diff   (output of `git diff` in the worktree with only that change applied; must apply cleanly with `git apply` to the unchanged tree)
   {OUT}/{pid}/m<k>/demo.py      (or demo.cpp + demo.sh)
   {OUT}/{pid}/m<k>/meta.json    {{"property": "{pid}", "summary": "...", "needs_to_manifest": "...", "files": [...], "how_run": "..."}}
